@@ -511,6 +511,10 @@ class Engine:
     def finish(self, o: Outcome):
         c = self.c
         st = o.state
+        # in postconditions parameter names denote their ENTRY values (a function may rebind its parameters)
+        for p_, v_ in (st.old_env or {}).items():
+            if p_ in c.params:
+                st.env[p_] = v_
         self.cur_line = o.line or self.fnode.end_lineno
         if o.kind in ('break', 'continue'):
             raise Unsupported('break/continue outside a loop')
@@ -1037,6 +1041,10 @@ class Engine:
                 itv = conv
                 outs0 = outs0 + self.flush_raises(st)
                 break
+        if isinstance(itv, V) and isinstance(itv.t, TOpt) and isinstance(itv.t.inner, TSeq):
+            self.may_raise(st, 'TypeError', itv.t.is_none(itv.term), 'iteration over None')
+            outs0 = outs0 + self.flush_raises(st)
+            itv = V(itv.t.inner, itv.t.val(itv.term))
         var = s.target.id if isinstance(s.target, ast.Name) else None
         enum = False
         if isinstance(itv, VPy) and isinstance(itv.obj, tuple) and itv.obj and itv.obj[0] == 'enumerate':
@@ -1343,6 +1351,9 @@ class Engine:
         if isinstance(b, V) and isinstance(b.t, TSeq):
             av = self.coerce(a, b.t.elem, node)
             return z3.Contains(b.term, z3.Unit(av.term))
+        if isinstance(b, V) and isinstance(b.t, TOpt) and b.t.inner in (STR,) :
+            self.may_raise(st, 'TypeError', b.t.is_none(b.term), '`in` on None')
+            b = V(b.t.inner, b.t.val(b.term))
         if isinstance(b, V) and b.t == STR:
             av = self.coerce(a, STR, node)
             return z3.Contains(b.term, av.term)
